@@ -29,7 +29,7 @@ func loggerCode(final byte) []byte {
 	for n := 1; n <= 4; n++ {
 		a.Label("L" + string(rune('0'+n))).Op(gen.POP)
 		for k := n; k >= 1; k-- {
-			a.Push(uint64(32 * k)).Op(gen.CALLDATALOAD, gen.SWAP1)
+			a.Push(uint64(32*k)).Op(gen.CALLDATALOAD, gen.SWAP1)
 		}
 		a.Push(0).Op(byte(gen.LOG0+n), final)
 	}
